@@ -86,6 +86,23 @@ impl Builtins {
         }
     }
 
+    /// The functional operators call their function with a fixed number of
+    /// arguments. Check it up front, a mismatch would corrupt the stack.
+    fn check_arity(f: &super::Func, expected: usize, pos: &Position) -> Result<(), Error> {
+        if f.bindings.len() != expected {
+            return Err(Error::new(
+                format!(
+                    "Func takes {} args but is called with {} args here",
+                    f.bindings.len(),
+                    expected
+                )
+                .into(),
+                pos.clone(),
+            ));
+        }
+        Ok(())
+    }
+
     fn get_file_as_string(&self, path: &str) -> Result<Rc<str>, Error> {
         let mut f = File::open(path)?;
         let mut contents = String::new();
@@ -427,6 +444,7 @@ impl Builtins {
 
         match *list.as_ref() {
             C(List(ref elems, ref elems_pos_list)) => {
+                Self::check_arity(f, 1, &fptr_pos)?;
                 let mut result_elems = Vec::new();
                 let mut pos_elems = Vec::new();
                 for (counter, e) in elems.iter().enumerate() {
@@ -442,6 +460,7 @@ impl Builtins {
                 stack.push((Rc::new(C(List(result_elems, pos_elems))), list_pos));
             }
             C(Tuple(ref flds, ref flds_pos_list)) => {
+                Self::check_arity(f, 2, &fptr_pos)?;
                 let mut new_fields = Vec::new();
                 let mut new_flds_pos_list = Vec::new();
                 for (counter, (name, val)) in flds.iter().enumerate() {
@@ -474,6 +493,7 @@ impl Builtins {
                 stack.push((Rc::new(C(Tuple(new_fields, new_flds_pos_list))), pos));
             }
             P(Str(ref s)) => {
+                Self::check_arity(f, 1, &fptr_pos)?;
                 let mut buf = String::new();
                 for c in s.chars() {
                     stack.push((Rc::new(P(Str(c.to_string().into()))), list_pos.clone()));
@@ -533,6 +553,7 @@ impl Builtins {
 
         match *list.as_ref() {
             C(List(ref elems, ref elems_pos_list)) => {
+                Self::check_arity(f, 1, &fptr_pos)?;
                 let mut result_elems = Vec::new();
                 let mut pos_elems = Vec::new();
                 for (counter, e) in elems.iter().enumerate() {
@@ -557,6 +578,7 @@ impl Builtins {
                 stack.push((Rc::new(C(List(result_elems, pos_elems))), pos));
             }
             C(Tuple(ref flds, ref pos_list)) => {
+                Self::check_arity(f, 2, &fptr_pos)?;
                 let mut new_fields = Vec::new();
                 let mut new_flds_pos_list = Vec::new();
                 for (counter, (name, val)) in flds.iter().enumerate() {
@@ -581,6 +603,7 @@ impl Builtins {
                 stack.push((Rc::new(C(Tuple(new_fields, new_flds_pos_list))), pos));
             }
             P(Str(ref s)) => {
+                Self::check_arity(f, 1, &fptr_pos)?;
                 let mut buf = String::new();
                 for c in s.chars() {
                     stack.push((Rc::new(P(Str(c.to_string().into()))), list_pos.clone()));
@@ -681,6 +704,7 @@ impl Builtins {
 
         match *list.as_ref() {
             C(List(ref elems, ref elems_pos_list)) => {
+                Self::check_arity(f, 2, &fptr_pos)?;
                 for (counter, e) in elems.iter().enumerate() {
                     let e_pos = elems_pos_list[counter].clone();
                     // push function arguments on the stack.
@@ -694,6 +718,7 @@ impl Builtins {
                 }
             }
             C(Tuple(ref _flds, ref flds_pos_list)) => {
+                Self::check_arity(f, 3, &fptr_pos)?;
                 for (counter, (name, val)) in _flds.iter().enumerate() {
                     let name_pos = flds_pos_list[counter].0.clone();
                     let val_pos = flds_pos_list[counter].1.clone();
@@ -709,6 +734,7 @@ impl Builtins {
                 }
             }
             P(Str(ref s)) => {
+                Self::check_arity(f, 2, &fptr_pos)?;
                 for c in s.chars() {
                     // push function arguments on the stack.
                     stack.push((acc.clone(), acc_pos.clone()));
